@@ -244,6 +244,10 @@ func (group *Group) broadcastByRtmpMsg(msg base.RtmpMsg) {
 		group.customizeHookSessionContext.OnMsg(msg)
 	}
 
+	// metadata，video seq header，aac seq header，这类消息不受等待关键帧逻辑的限制
+	isHeaderMsg := msg.Header.MsgTypeId == base.RtmpTypeIdMetadata ||
+		(msg.Header.MsgTypeId == base.RtmpTypeIdVideo && msg.IsVideoKeySeqHeader()) || msg.IsAacSeqHeader()
+
 	// # 广播。遍历所有 rtmp sub session，转发数据
 	// ## 如果是新的 sub session，发送已缓存的信息
 	for session := range group.rtmpSubSessionSet {
@@ -293,6 +297,12 @@ func (group *Group) broadcastByRtmpMsg(msg base.RtmpMsg) {
 				group.rtmpMergeWriter.Flush()
 			}
 			session.ShouldWaitVideoKeyFrame = false
+		}
+
+		// 等待关键帧期间，metadata和seq header依然需要发送给这个sub session，
+		// 否则它可能拿不到（比如在video seq header和aac seq header之间加入），或者拿到的是已经过时的头信息
+		if session.ShouldWaitVideoKeyFrame && isHeaderMsg {
+			_ = session.Write(lazyRtmpChunkDivider.GetEnsureWithoutSdf())
 		}
 	} // for loop iterate rtmpSubSessionSet
 
@@ -366,6 +376,9 @@ func (group *Group) broadcastByRtmpMsg(msg base.RtmpMsg) {
 			if msg.IsVideoKeyNalu() {
 				session.Write(lazyRtmpMsg2FlvTag.GetEnsureWithoutSdf())
 				session.ShouldWaitVideoKeyFrame = false
+			} else if isHeaderMsg {
+				// 等待关键帧期间，metadata和seq header依然需要发送
+				session.Write(lazyRtmpMsg2FlvTag.GetEnsureWithoutSdf())
 			}
 		} else {
 			session.Write(lazyRtmpMsg2FlvTag.GetEnsureWithoutSdf())
